@@ -147,7 +147,7 @@ def main(argv: List[str] | None = None) -> int:
             break
         if hasattr(mod, 'replay') and v.get('unit') is not None or v.get('case') is not None:
             doc = {'unit': jsonable(v.get('unit')), 'choices': v.get('choices'), 'case': jsonable(v.get('case')),
-                   'clause': v.get('clause')}
+                   'clause': v.get('clause'), 'features': jsonable(v.get('features', {}))}
             try:
                 again = mod.replay(doc)
             except Exception as exc:  # noqa: BLE001 - a harness defect must not hide what was found
